@@ -169,7 +169,7 @@ def h_sets_and_options():
     from dateutil import tz
     types = dict(i=int, n=int)
     CASES = ["cold-rdate", "set", "forceset", "compatible", "tzid", "utc-z", "ignoretz", "tzids-map", "unknown-part", "bad-freq", "bad-value", "bad-wd",
-             "unknown-prop", "empty", "cache", "tzid-names", "tzid-callable", "tzid-exdate", "crlf", "crlf-unfold", "crlf-folded", "crlf-compatible"]
+             "unknown-prop", "empty", "cache", "tzid-names", "tzid-callable", "tzid-exdate", "crlf", "crlf-unfold", "crlf-folded", "crlf-compatible", "ignoretz-set"]
     TZNAMES = ["Mine", "Etc/GMT-3", "America/Port-au-Prince", "W-SU", "US/East-Indiana", "Zone.With.Dots", "Plus+Minus-", "lower_case/x"]
 
     def fn(ctx, i, n):
@@ -224,6 +224,24 @@ def h_sets_and_options():
             elif case == "ignoretz":
                 r = RR.rrulestr("DTSTART:19970902T090000Z\nRRULE:FREQ=DAILY;COUNT=%d" % n, ignoretz=True)
                 ctx.check(list(r)[0].tzinfo is None, "ignoretz kept a zone", key=key)
+            elif case == "ignoretz-set":
+                # every line kind carries a zone (Z): with ignoretz the whole set is the naive keyword-built one
+                until = datetime.datetime(1997, 9, 2 + n + 3, 9, 0)
+                text = ("DTSTART:19970902T090000Z\nRRULE:FREQ=DAILY;UNTIL=%sZ\nRDATE:19971001T090000Z\n"
+                        "EXRULE:FREQ=DAILY;INTERVAL=2;UNTIL=%sZ\nEXDATE:19970903T090000Z" % (until.strftime("%Y%m%dT%H%M%S"), until.strftime("%Y%m%dT%H%M%S")))
+                exp = RR.rruleset()
+                exp.rrule(RR.rrule(RR.DAILY, until=until, dtstart=start))
+                exp.rdate(datetime.datetime(1997, 10, 1, 9, 0))
+                exp.exrule(RR.rrule(RR.DAILY, interval=2, until=until, dtstart=start))
+                exp.exdate(datetime.datetime(1997, 9, 3, 9, 0))
+                try:
+                    got = list(RR.rrulestr(text, ignoretz=True))
+                except Exception as e:      # noqa
+                    got = "%s: %s" % (type(e).__name__, e)
+                ctx.check(got == list(exp), "RRULE/RDATE/EXRULE/EXDATE text with zones under ignoretz=True differs from the naive keyword-built set: %r" % (got if isinstance(got, str) else len(got),), key=key)
+                aware = list(RR.rrulestr(text))
+                ctx.check([d.replace(tzinfo=None) for d in aware] == list(exp) and all(d.utcoffset() == datetime.timedelta(0) for d in aware),
+                          "the same text without ignoretz is not the UTC set", key=key)
             elif case == "tzids-map":
                 z = tz.tzoffset("X", 3600 * n)
                 r = RR.rrulestr("DTSTART;TZID=Mine:19970902T090000\nRRULE:FREQ=DAILY;COUNT=2", tzids={"Mine": z})
